@@ -192,3 +192,20 @@ Proof.
   exists w', E'. auto.
 Qed.
 
+
+(* termination: on a well-formed world SortMerge returns; it neither runs out of fuel (the model's
+   image of a loop that does not terminate, e.g. Extend(l, l)) nor panics *)
+Lemma sort_merge_terminates_l :
+  forall lt w E l, WF w E -> (l < lfresh w)%nat ->
+    SortMerge lt l w <> Hang /\ SortMerge lt l w <> Panic /\ exists w', SortMerge lt l w = Ret tt w'.
+Proof.
+  intros lt w E l W Hl. destruct (SortMerge_spec lt w E l W Hl) as (w' & E' & Run & _).
+  rewrite Run. repeat split; try discriminate. eauto.
+Qed.
+
+Lemma sort_quick_terminates_l :
+  forall lt w E l, WF w E -> (l < lfresh w)%nat -> exists w', SortQuick lt l w = Ret tt w'.
+Proof.
+  intros lt w E l W Hl.
+  destruct (SortQuickWith_spec (stable_sort lt) (stable_sort_perm lt) w E l W Hl) as (w' & Run & _). eauto.
+Qed.
